@@ -281,6 +281,18 @@ func (d *Downloader) synchronise(id string, hash types.Hash, td uint64) error {
 	d.peers.Reset()
 	d.checks = make(map[types.Hash]*crossCheck)
 
+	// Drop signals left over from a previous session which was aborted: a stale "hashes done" flag would make the
+	// block fetcher of this session finish at once and leave the hash fetcher waiting for it forever
+	for empty := false; !empty; {
+		select {
+		case <-d.hashCh:
+		case <-d.blockCh:
+		case <-d.processCh:
+		default:
+			empty = true
+		}
+	}
+
 	// Create cancel channel for aborting mid-flight
 	d.cancelLock.Lock()
 	d.cancelCh = make(chan struct{})
